@@ -3,6 +3,7 @@ import ZeepModel.Lex.GTypes
 import ZeepModel.Lex.Simple
 import ZeepModel.Lex.Base64
 import ZeepModel.Lex.DateTime
+import ZeepModel.Lex.Decimal
 namespace Driver
 open Lean Zeep.Digits Zeep.GTypes Zeep.Simple Zeep.DateTime
 
@@ -32,6 +33,9 @@ def lexEnc (j : Json) : R Json := do
     let a ← arr v
     pure (jStrL (encDateTime ⟨⟨← nat (← at! a 0), ← nat (← at! a 1), ← nat (← at! a 2)⟩,
       ⟨← nat (← at! a 3), ← nat (← at! a 4), ← nat (← at! a 5), ← nat (← at! a 6), ← parseTzJ (← at! a 7)⟩⟩))
+  | "decimal" => do
+    let a ← arr v
+    pure (jStrL (Zeep.Decimal.encDec ⟨← bool (← at! a 0), ← nat (← at! a 1), ← int (← at! a 2)⟩))
   | "base64" => pure (jStrL (Zeep.Base64.encode (← listOf nat v)))
   | "floatspecial" => do
     let s ← str v
@@ -57,6 +61,8 @@ def lexDec (j : Json) : R Json := do
       | some v => Json.arr #[jNat v.date.year, jNat v.date.month, jNat v.date.day,
           jNat v.time.hour, jNat v.time.minute, jNat v.time.second, jNat v.time.micro, jTz v.time.tz]
       | none => Json.null)
+  | "decimal" => pure (match Zeep.Decimal.decDec (collapseWs t) with
+      | some d => Json.arr #[Json.bool d.neg, jNat d.coeff, jInt d.exp] | none => Json.null)
   | "base64" => pure (match Zeep.Base64.decodeLenient t with | some b => jList jNat b | none => Json.null)
   | "preserve" => pure (jStrL (applyFacet .preserve t))
   | "replace" => pure (jStrL (applyFacet .replace t))
